@@ -399,7 +399,7 @@ class Interp:
         self.concrete = False
 
     # ------------- path machinery --------------
-    def start_path(self, prefix, timeout_ms=20000):
+    def start_path(self, prefix, timeout_ms=60000):
         self.step_limit = STEP_BUDGET
         self.prefix = prefix
         self.decisions = []
